@@ -549,6 +549,11 @@ func (v *visitor) BuiltinNode(node *ast.BuiltinNode) reflect.Type {
 
 func (v *visitor) ClosureNode(node *ast.ClosureNode) reflect.Type {
 	t := v.visit(node.Node)
+	if t == nil {
+		// The closure body is of nil type (e.g. `nil` itself), reflect.FuncOf
+		// panics on it: treat the result as of unknown type.
+		t = interfaceType
+	}
 	return reflect.FuncOf([]reflect.Type{interfaceType}, []reflect.Type{t}, false)
 }
 
